@@ -1,4 +1,7 @@
 """C16 VarOpt: thin structural clauses (bookkeeping and dispatch); see rules/sampling_rules.py."""
+from vlib.core import VERIF
+import json, os
+import a4_twin
 import sampling_rules as S
 import cowrite
 import generic_lints
@@ -19,6 +22,7 @@ def run(facts, tier):
         ("emptiness predicate support", lambda fa: predicates.obligations(fa, ['var_opt_sketch']), 2, "is_empty keeps its reviewed support"),
         ("rest state", derived.rest_state, 4, "the readers restore the transient M region as empty and the gap slot as raw memory"),
         ("reader dead-reads", lambda fa: [o for o in dead_reads.obligations(fa) if "var_opt" in o["key"]], 10, "every field the VarOpt readers take from the image reaches the restored sketch on every accepting path"),
+        ("serializer twins", lambda fa: [o for o in a4_twin.obligations(fa, set(json.load(open(os.path.join(VERIF, "spec", "twin_armed.json")))["armed"])) if "var_opt" in o["key"]], 2, "stream and byte writers of the VarOpt sketch and union emit the same fields under the same conditions (the two images of one state are one format)"),
         ("tautologies", lambda fa: generic_lints.tautologies(fa, ('sampling/',)), 2, "no comparison / assignment / min-max with two identical operands"),
         ("hazards", lambda fa: hazard_lints.hazards(fa, ('sampling/',)), 2, "no 64-bit value silently narrowed at a call of a library function, no numeric_limits<floating>::min() as a lowest value, no random engine constructed inside a loop, no read of a moved-from parameter, no unguarded unsigned `x - c` loop bound (reviewed instances in spec/hazards.json)"),
         ("duplicate operands", lambda fa: generic_lints.duplicate_conjuncts(fa, ('sampling/',)), 2, "no logical chain tests the same operand twice"),
